@@ -234,6 +234,9 @@ ENGINES["orswot"]["configs"]["quick"] += [orcfg("orswot_s_4adders.cfg"),      # 
                                           orcfg("orswot_s_samectx4m.cfg")]    # same-context removes, 4 replicas, WITH merge transitions (hybrid)
 ENGINES["map_mv"]["configs"]["quick"] += [mapcfg("map_mv_s_3keys.cfg", 1, 3), mapcfg("map_mv_s_newer.cfg", 1, 2)]   # multi-key pending removes
 ENGINES["list"]["configs"]["quick"] += [{"cfg": "list_s_deep.cfg", "module": "MC_List.tla", "flags": ["--persist"], "invariants": INV_LIST}]   # identifiers of depth 3
+# H1 seeds: a remove that meets an existing pending entry with its own clock; re-keying of the pending table at a four-actor replica
+ENGINES["orswot"]["configs"]["quick"] += [orcfg("orswot_s_samectxr.cfg"), orcfg("orswot_s_nested4.cfg")]
+ENGINES["map_mv"]["configs"]["quick"] += [mapcfg("map_mv_s_samectxr.cfg", 1, 2), mapcfg("map_mv_s_nested4.cfg", 1, 3)]   # the same two shapes for Map's pending key removes
 # MVReg value clocks over four actors (H3 seeds): siblings that agree at both ends and differ in the middle; four-way merges
 ENGINES["mvreg"]["configs"]["quick"] += [{"cfg": "mvreg_s_seen4.cfg", "module": "MC_MVReg.tla", "flags": ["--persist"],
                                          "invariants": ["TypeOK", "RefinesA", "NoDuplicatePair", "Converge", "DupNoop", "StaleNoop", "FreshDot"]}]
